@@ -475,6 +475,8 @@ func runC20Switch(c *Ctx) {
 						c.Triv(sw.Pos(), curFunc, construct, "partial switch without default: the remaining constants are deliberately no-ops")
 					case !clausePanics(def, info):
 						c.OK(sw.Pos(), curFunc, construct, "missing constants fall into a non-panicking default")
+					case len(missing) == 1 && missing[0] == "TypeGeometryCollection" && onlyCalledOnWalkLeaves(c, c.P.Func(curFunc)):
+						c.OK(sw.Pos(), curFunc, construct, "a helper that is only ever handed the leaves walk gives out (never a collection)")
 					case curFunc == "geom.rotatedMinimumBoundingRectangle":
 						c.Except(sw.Pos(), curFunc, construct, "the switch is on the type of a convex hull, which is a Point, LineString or Polygon by construction (convexHull builds only those)")
 					default:
@@ -642,4 +644,79 @@ func dependsOnPhi(v ssa.Value, phi *ssa.Phi) bool {
 func isConstLike(v ssa.Value) bool {
 	_, ok := v.(*ssa.Const)
 	return ok
+}
+
+// onlyCalledOnWalkLeaves: f is a helper introduced since the baseline and at
+// every call site it is handed the parameter of a function literal that is
+// passed to GeometryCollection.walk — a leaf, never a collection.
+func onlyCalledOnWalkLeaves(c *Ctx, f *ssa.Function) bool {
+	if f == nil || !isNewHelper(f) {
+		return false
+	}
+	sites := c.P.callSitesOf(f)
+	if len(sites) == 0 {
+		return false
+	}
+	gcTag := int64(-1)
+	if o, ok := c.P.Pkgs["geom"].Types.Scope().Lookup("TypeGeometryCollection").(*types.Const); ok {
+		gcTag, _ = constIntVal(o)
+	}
+	for _, s := range sites {
+		// … or the argument is known not to be a collection where the call is made
+		guarded := false
+		for _, g := range guardsAt(s) {
+			switch x := g.Cond.(type) {
+			case *ssa.BinOp:
+				k, isC := constInt(x.Y)
+				call, isCall := x.X.(*ssa.Call)
+				if isC && isCall && k == gcTag && strings.HasSuffix(calleeName(call), ").Type") && len(call.Call.Args) == 1 {
+					for _, a := range s.Common().Args {
+						if a == call.Call.Args[0] || sameValue(a, call.Call.Args[0]) {
+							if (x.Op == token.NEQ && g.Truth) || (x.Op == token.EQL && !g.Truth) {
+								guarded = true
+							}
+						}
+					}
+				}
+			case *ssa.Call:
+				if calleeName(x) == "geom.(Geometry).IsGeometryCollection" && !g.Truth && len(x.Call.Args) == 1 {
+					for _, a := range s.Common().Args {
+						if a == x.Call.Args[0] || sameValue(a, x.Call.Args[0]) {
+							guarded = true
+						}
+					}
+				}
+			}
+		}
+		if guarded {
+			continue
+		}
+		lit := s.Parent()
+		if lit.Parent() == nil || len(lit.Params) == 0 {
+			return false
+		}
+		isWalkLit := false
+		eachCall(lit.Parent(), func(pc ssa.CallInstruction) {
+			if strings.HasSuffix(calleeName(pc), ").walk") {
+				for _, a := range pc.Common().Args {
+					if mc, ok := a.(*ssa.MakeClosure); ok && mc.Fn == ssa.Value(lit) {
+						isWalkLit = true
+					}
+				}
+			}
+		})
+		if !isWalkLit {
+			return false
+		}
+		handsLeaf := false
+		for _, a := range s.Common().Args {
+			if stripLoad(a) == ssa.Value(lit.Params[0]) {
+				handsLeaf = true
+			}
+		}
+		if !handsLeaf {
+			return false
+		}
+	}
+	return true
 }
